@@ -534,11 +534,60 @@ def _attach_empty(ctx):
     ctx.require(seen >= 3, 'add_node call sites of the loader', rule='C04.3')
 
 
+def _affinity_fixed(ctx):
+    """C04.1: the counter an instance was added to at placement is the one
+    it is taken from at removal and the one the limit test reads: the
+    affinity of an instance is set by its constructor and never afterwards
+    (the manifest of a placed instance may be rewritten; what it was placed
+    under stays)."""
+    index = ctx.index
+    mods = [index.module(K.SCHED), index.module(K.LOADER),
+            index.module(K.MASTER)]
+    if ctx.tier == 'thorough':
+        mods = [m for m in index.modules.values()
+                if 'treadmill.scheduler' in m.imports.values() or
+                m.name.startswith('treadmill.scheduler')]
+    inside = 0
+    for mod in mods:
+        for func in mod.live_functions():
+            for sub in K.walk_no_nested(func.node):
+                tgts = []
+                if isinstance(sub, ast.Assign):
+                    tgts = sub.targets
+                elif isinstance(sub, (ast.AugAssign, ast.AnnAssign)):
+                    tgts = [sub.target]
+                for tgt in tgts:
+                    for leaf in ast.walk(tgt):
+                        if not (isinstance(leaf, ast.Attribute) and
+                                leaf.attr == 'affinity' and
+                                isinstance(leaf.ctx, ast.Store)):
+                            continue
+                        ok = func.name == '__init__' and \
+                            K.name_is(leaf.value, 'self')
+                        inside += ok
+                        ctx.ob('C04.1', func, sub, ok,
+                               'the affinity of an instance is set by its '
+                               'constructor only' if ok else
+                               'the affinity of a (possibly placed) instance '
+                               'is replaced: the counters it was added to '
+                               'are no longer the ones it is removed from',
+                               construct='affinity owner')
+    ctx.require(inside >= 1, 'the constructor store of Application.affinity',
+                rule='C04.1')
+
+
 def check(ctx):
     node_cls, server = _counters(ctx)
     base = _polarity(ctx, node_cls)
     _every_level(ctx, node_cls, server, base)
     _attach_empty(ctx)
+    _affinity_fixed(ctx)
+    # shared with C10.3 / C01.9: an instance recorded under several servers
+    # at a restart is taken off every one of them through Server.remove (a
+    # copy that stays keeps counting on its server, rack and cell while the
+    # instance is placed again)
+    from . import c10
+    c10.restart_repair(ctx, 'C04.1')
 
 
 _S = 'lib/python/treadmill/scheduler/__init__.py'
